@@ -305,6 +305,37 @@ def run_cem(case):
                     {"mean": mean, "var": var, "lb": lb[0], "ub": ub[0]})
                 return res
             res.see("cem_candidates_checked", n_pop)
+    # the planner as PETS runs it: sample / update iterated while the search
+    # distribution collapses onto a corner of a box far from zero
+    off = float(rng.choice([-300.0, 50.0, 1000.0]))
+    space2 = type(space)((space.low + off).astype(np.float32),
+                         (space.low + off + rng.uniform(0.5, 2.0, A)).astype(np.float32))
+    lb2, ub2 = np.tile(space2.low, (Hn, 1)), np.tile(space2.high, (Hn, 1))
+    ulp2 = 4 * np.spacing(np.maximum(np.abs(lb2), np.abs(ub2))).astype(np.float64)
+    sample2, update2 = _init_mpc_optimizer_cem(space2, Hn, n_pop)
+    mean = jnp.asarray((lb2 + ub2) / 2, jnp.float32)
+    var = jnp.asarray(((ub2 - lb2) / 2) ** 2, jnp.float32)
+    sign = rng.choice([-1.0, 1.0], size=(Hn, A))
+    for it in range(12):
+        key = jax.random.key(int(rng.integers(1 << 20)))
+        ok, smp = guarded(res, "C10/raises/pets_sampler", sample2, mean, var, key)
+        if not ok:
+            return res
+        s64 = np.asarray(smp, np.float64)
+        if not np.all(np.isfinite(s64)) or np.any(s64 < lb2 - ulp2) or \
+                np.any(s64 > ub2 + ulp2):
+            res.violation(
+                "C10/cem/candidate_out_of_bounds",
+                f"planner iteration {it} on the box [{space2.low.tolist()}, "
+                f"{space2.high.tolist()}]: candidates non-finite or outside the "
+                f"bounds (search variance {np.asarray(var).ravel()[:4].tolist()})")
+            return res
+        fit = jnp.asarray((s64 * sign).sum(axis=(1, 2)), jnp.float32)
+        ok, mv = guarded(res, "C10/raises/cem_update", update2, smp, fit, mean, var)
+        if not ok:
+            return res
+        mean, var = mv
+        res.see("cem_planner_iterations")
     res.nontrivial = near
     res.state(("cem", A, Hn))
     return res
